@@ -854,6 +854,71 @@ def inject_violation(items, rng):
     return it, choice
 
 
+def multi_violation(items, rng):
+    """Returns (items', label): SEVERAL static violations of ONE kind in parallel positions of one scope (two or
+    three different duplicated variant names in one enum, several duplicated symbol sequences, several clashing
+    top-level names, several undefined references …), so that which one is reported is decided by the order in
+    which the validator visits them.  The property fixes no order, but C14 demands that the answer is a function
+    of the text, and the model fixes the order of the unchanged code."""
+    import copy
+    it = copy.deepcopy(items)
+    nts = [d for d in it if d["kind"] in ("struct", "enum")]
+    terms = [d for d in it if d["kind"] == "terminal"]
+    if not nts or len(terms) != 1:
+        return None
+    term = terms[0]
+    tnames = [v["name"] for v in term["variants"]]
+    some = sym_t(tnames[0]) if tnames else sym_n(nts[0]["name"])
+    kind = rng.choice(["variant-names", "variant-names", "variant-seqs", "toplevel", "undef", "lower", "terminal-names", "mixed-enum"])
+    groups = rng.randint(2, 3)
+    base = rng.choice(["Add", "Neg", "Mul", "Zq", "Kx"])
+    names = [f"{base}{chr(65 + j)}" for j in range(groups)]
+
+    def tup(n):
+        return {"kind": "empty"} if n == 0 else {"kind": "tuple", "fields": [{"used": True, "sym": some} for _ in range(n)]}
+
+    if kind in ("variant-names", "mixed-enum"):
+        vs = [{"name": n, "fieldset": None} for n in names] * 2
+        rng.shuffle(vs)
+        vs = [{"name": v["name"], "fieldset": tup(j)} for j, v in enumerate(vs)]     # pairwise distinct sequences
+        if kind == "mixed-enum":
+            # … and two pairs of equal symbol sequences as well
+            vs += [{"name": "P0", "fieldset": tup(9)}, {"name": "P1", "fieldset": tup(10)}, {"name": "P2", "fieldset": tup(9)}, {"name": "P3", "fieldset": tup(10)}]
+            rng.shuffle(vs)
+        it.insert(rng.randint(0, len(it)), {"kind": "enum", "attrs": [], "name": "Zzmulti", "variants": vs})
+    elif kind == "variant-seqs":
+        seqs = list(range(1, groups + 1)) * 2
+        rng.shuffle(seqs)
+        vs = [{"name": f"V{j}", "fieldset": tup(n)} for j, n in enumerate(seqs)]
+        it.insert(rng.randint(0, len(it)), {"kind": "enum", "attrs": [], "name": "Zzmulti", "variants": vs})
+    elif kind == "toplevel":
+        ds = [{"kind": "struct", "attrs": [], "name": "Zz" + n, "fieldset": tup(j % 3)} for j, n in enumerate(names * 2)]
+        rng.shuffle(ds)
+        for d in ds:
+            it.insert(rng.randint(0, len(it)), d)
+    elif kind == "undef":
+        missing = [sym_n("Missing" + n) if rng.random() < 0.5 else sym_t("Missing" + n) for n in names]
+        if rng.random() < 0.5:
+            fs = {"kind": "tuple", "fields": [{"used": True, "sym": x} for x in missing]}
+            it.insert(rng.randint(0, len(it)), {"kind": "struct", "attrs": [], "name": "Zzmulti", "fieldset": fs})
+        else:
+            vs = [{"name": f"V{j}", "fieldset": {"kind": "tuple", "fields": [{"used": True, "sym": x}]}} for j, x in enumerate(missing)]
+            it.insert(rng.randint(0, len(it)), {"kind": "enum", "attrs": [], "name": "Zzmulti", "variants": vs})
+    elif kind == "lower":
+        if rng.random() < 0.5:
+            vs = [{"name": n[0].lower() + n[1:], "fieldset": tup(j)} for j, n in enumerate(names)]
+            it.insert(rng.randint(0, len(it)), {"kind": "enum", "attrs": [], "name": "Zzmulti", "variants": vs})
+        else:
+            fs = {"kind": "named", "fields": [{"name": n, "sym": some} for n in names]}
+            it.insert(rng.randint(0, len(it)), {"kind": "struct", "attrs": [], "name": "Zzmulti", "fieldset": fs})
+    else:
+        vs = [{"name": "Zz" + n, "type": "()"} for n in names] * 2
+        rng.shuffle(vs)
+        at = rng.randint(0, len(term["variants"]))
+        term["variants"][at:at] = vs
+    return it, "multi-" + kind
+
+
 def rename_nt(items, old, new, refs=True):
     done = False
     for d in items:
